@@ -29,7 +29,7 @@ CORR = ["Corr/FsCorr.v"]
 
 # ------------------------------------------------------------------ building
 def build_case(run, shoot, mod, idx, rng, cmd=None, force_mode=None, force_invoke=None, expect_fail=None,
-               traced=True, fixed=False):
+               traced=True, fixed=False, force_kinds=()):
     """create the directory state of one case and run shoot on it under strace.
     returns the case dict (JSON-able except for bytes, which are latin-1 strings)"""
     cmd = cmd or fsgen.CMDS[idx % 4]
@@ -63,7 +63,7 @@ def build_case(run, shoot, mod, idx, rng, cmd=None, force_mode=None, force_invok
     for inv in hist:
         r = l2.run_shoot(shoot, inv.cwd(root), inv.args(root), timeout=60)
         hist_log.append({"args": inv.args(root), "rc": r["rc"]})
-    planted = fsgen.plant(rng, root / "p", cmd, rng.randint(2, 7))
+    planted = fsgen.plant(rng, root / "p", cmd, rng.randint(2, 7), forced=force_kinds)
     links = fsgen.plant_links(rng, root, cmd, rng.randint(0, 3))
     fail = None
     args = final.args(root)
@@ -185,6 +185,7 @@ DIAG_NAMES = ["P_modelled (every traced operation is one of the model's and succ
               "P_transient (names existing only during the run are not Go files)",
               "P_confined (changed names match *.shoot<cmd>*.go; removed ones are superseded outputs of the same subcommand)",
               "P_kept (every pre-existing inode keeps its bytes)",
+              "P_superseded (a file is gone only when every created/replaced name already shows its final content)",
               "nothing outside the package directory changed",
               "model_agrees (plan = trace, final state = model's)"]
 
@@ -619,24 +620,32 @@ def setup(run):
 
 
 def case_plan(run, fixed=False):
-    """(cmd index, forced mode, forced invoke, expect_fail) per case: every subcommand x
-    every mode x both ways of invoking is present in every run; the rest is random"""
+    """(cmd index, forced mode, forced invoke, expect_fail, forced planted kinds) per case: every
+    subcommand x every mode x both ways of invoking is present in every run, and every kind of planted
+    file sits next to at least one run in which Clean is active; the rest is random"""
     plan = []
     modes = ["star", "types", "file", "filesep", "starsep", "star_noline", "star_space"]
-    n = 0
+    kinds = sorted({k for _, _, k in fsgen.planted_menu(run.rng, "new")})
+    run.rng.shuffle(kinds)
+    nk = [0]
+
+    def next_kinds(n):
+        ks = tuple(kinds[(nk[0] + j) % len(kinds)] for j in range(n))
+        nk[0] += n
+        return ks
     for ci in range(4):
         for m in modes:
             for invoke in (("pkg", "parent") if (m != "star_space" or fixed) else ("pkg", "pkgdot")):
-                plan.append((ci, m, invoke, None))
+                plan.append((ci, m, invoke, None, next_kinds(3) if m in ("star", "star_space") else ()))
         for invoke in ("pkgdot", "parent_bare", "abs"):
-            plan.append((ci, "star", invoke, None))
+            plan.append((ci, "star", invoke, None, next_kinds(3)))
     for ci in range(4):
         fails = ["missing_type", "missing_file", "bad_flag", "missing_dir"]
         for fail in (fails if run.thorough() else run.rng.sample(fails, 2)):
-            plan.append((ci, run.rng.choice(["star", "types"]), run.rng.choice(["pkg", "parent"]), fail))
+            plan.append((ci, run.rng.choice(["star", "types"]), run.rng.choice(["pkg", "parent"]), fail, ()))
     extra = 400 if run.thorough() else 12
     for _ in range(extra):
-        plan.append((run.rng.randrange(4), None, None, None))
+        plan.append((run.rng.randrange(4), None, None, None, ()))
     return plan
 
 
@@ -668,18 +677,18 @@ def main(run):
     retried = []
 
     def one(i):
-        ci, mode, invoke, fail = plan[i]
+        ci, mode, invoke, fail, fkinds = plan[i]
         for attempt in range(3):
             # a case is a function of its seed: a traced run that does not finish in time (seen once in
             # ~1000 runs on a heavily loaded machine) is rebuilt from scratch and repeated
             c = build_case(run, shoot, mod, i, random.Random(seeds[i]), cmd=fsgen.CMDS[ci], force_mode=mode,
-                           force_invoke=invoke, expect_fail=fail, fixed=fixed)
+                           force_invoke=invoke, expect_fail=fail, fixed=fixed, force_kinds=fkinds)
             if not c["timed_out"]:
                 return c
             retried.append(i)
         # three timeouts under strace: does shoot itself terminate on this input?
         c2 = build_case(run, shoot, mod, i, random.Random(seeds[i]), cmd=fsgen.CMDS[ci], force_mode=mode,
-                        force_invoke=invoke, expect_fail=fail, traced=False, fixed=fixed)
+                        force_invoke=invoke, expect_fail=fail, traced=False, fixed=fixed, force_kinds=fkinds)
         if c2["timed_out"]:
             c2["nonterminating"] = True
             return c2
@@ -799,6 +808,7 @@ def main(run):
         "programs": len(cases),
         "samples": [summary(cases[i]) for i in (0, len(cases) // 2, len(cases) - 1)],
         "modes": modes, "invocations": invokes, "planted_kinds": kinds, "traced_op_kinds": opk,
+        "planted_kinds_next_to_active_clean": len({k for c in cases if c["clean"] for k in c["planted"].values()}),
         "cases_with_replaced_outputs": count(lambda c: any(o[0] == "Rename" and o[2] in {n for n, _, _ in pkg_files(c["before"])} for o in c["ops"])),
         "cases_with_victims": count(lambda c: any(o[0] == "Unlink" for o in c["ops"])),
         "cases_with_hard_links": count(lambda c: bool(c["links"])),
@@ -833,8 +843,10 @@ def main(run):
         "(the property speaks of normal termination)",
         "hand-written = the first line is not a `// Code generated by \"shoot <cmd> ...DO NOT EDIT.` header of the same "
         "subcommand; a hand-written file that carries such a first line cannot be told from a generated one",
-        "K_clean_own_output (open): -type '*' together with a [dir] argument is kept out of the comparison stream; "
-        "the theorems carry the guard [spares] and C17_refuted_K_clean_own_output exhibits the witness",
+        "K_clean_own_output (fixed in /repo by 31cd4c3): the model keeps the defect branch (c_fixed = false) and "
+        "C17_refuted_K_clean_own_output exhibits the witness; the witness is replayed on every run, the branch "
+        "compared against is the one measured (current code: c_fixed = true, and -type '*' with a [dir] argument "
+        "is part of the stream); C17_current_code_meets_all_guards discharges the guard [spares] for the current code",
     ])
 
 
